@@ -127,6 +127,7 @@ class extract_visitor(NodeVisitor):
                 continue
             name = nn  # type: ast.Name # type: ignore[assignment]
             body_start.add_name(AssignedName(name.id, body_loc, np(name), node.iter))
+        self.visit_in_flow(node.target, body_start)
         body = self.visit_in_flow(node.body, body_start)
         body_start.loop(body)
 
@@ -294,6 +295,7 @@ class extract_visitor(NodeVisitor):
                 cname = AssignedName(name.id, np(node), np(name), g.iter)
                 cname.scope = p.scope
                 insert_loc(p._names, cname)
+            self.visit_in_flow(g.target, p)
 
             if g.ifs:
                 for inode in g.ifs:
